@@ -284,9 +284,23 @@ func judge(sc *Scenario, res *result) (misses []miss, classes []string) {
 			limit += connectWait
 		}
 		if el := first.At.Sub(res.T0); el > limit {
-			if res.Liveness == "proxy-alive" {
+			// attempts that reach an upstream 20 ms and more after the global timeout, with the process never descheduled
+			// for long: the global timeout did not end the request. That does not depend on any interleaving; it is the
+			// footprint of the listed finding (the timer's notification is dropped while a retry is being set up - here
+			// the per-try timer and the global timer expire in the same instant - and the timer is one-shot), seen through
+			// a later attempt that happened to succeed instead of through a request that never completes.
+			lateAttempt := false
+			for _, a := range res.Arrivals {
+				if a.At.After(res.T0.Add(gt + 20*time.Millisecond)) {
+					lateAttempt = true
+				}
+			}
+			switch {
+			case res.Liveness == "proxy-alive":
 				add(true, fmt.Sprintf("completes-long-after-timeout:%s", sc.Proto), "reply after %d us, global timeout %d us", us(el), us(gt))
-			} else {
+			case lateAttempt && res.MaxStallUs <= disturbedUs && hangCause(sc, res) == "global-timeout-fired-while-retry-was-being-set-up":
+				add(true, "never-completes:global-timeout-fired-while-retry-was-being-set-up", "reply after %d us (global timeout %d us): attempts kept reaching the upstreams long after the global timeout, which did not end the request", us(el), us(gt))
+			default:
 				add(false, "late-completion", "reply after %d us, limit %d us (global timeout %d us)", us(el), us(limit), us(gt))
 			}
 		}
